@@ -98,7 +98,11 @@ class Ctx:
         known_keys = {(k["property"], k["key"]): k for k in known if k.get("status") == "known"}
         real = []
         lines = []
+        seen_keys = set()
         for v in self.viol:
+            if v["key"] in seen_keys:
+                continue
+            seen_keys.add(v["key"])
             kk = (self.prop, v["key"])
             if kk in known_keys:
                 lines.append("KNOWN-FINDING: property=%s %s — %s" % (self.prop, v["key"], known_keys[kk].get("what", "")))
